@@ -1,6 +1,7 @@
 package rtypes
 
 import (
+	"strings"
 	"fmt"
 	"math/rand"
 
@@ -22,6 +23,7 @@ type g2 struct {
 	r     *rand.Rand
 	modes []Mode // true mode of def i
 	names []string
+	small bool // many definitions: keep the bodies small
 }
 
 func (g *g2) sp(m Mode) string {
@@ -68,6 +70,9 @@ func (g *g2) node(m Mode, d int, self int) *SNode {
 		}
 		n := &SNode{K: k}
 		nb := 1 + g.r.Intn(3)
+		if g.r.Intn(14) == 0 {
+			nb = 9 + g.r.Intn(32) // a wide choice
+		}
 		for i := 0; i < nb; i++ {
 			n.Br = append(n.Br, SBranch{L: fmt.Sprintf("l%d", i), T: g.node(m, d-1, self)})
 		}
@@ -143,6 +148,10 @@ func cloneS(n *SNode) *SNode {
 func GenDefs(r *rand.Rand, defectPct int) ([]SDef, string) {
 	g := &g2{r: r}
 	n := 2 + r.Intn(6)
+	if r.Intn(12) == 0 {
+		n = 66 + r.Intn(40) // many definitions
+		g.small = true
+	}
 	uniform := r.Intn(3) == 0
 	base := AllModes[r.Intn(4)]
 	for i := 0; i < n; i++ {
@@ -169,7 +178,11 @@ func GenDefs(r *rand.Rand, defectPct int) ([]SDef, string) {
 			}
 		}
 		if body == nil {
-			body = g.node(g.modes[i], 1+r.Intn(3), i)
+			depth := 1 + r.Intn(3)
+			if g.small {
+				depth = 1
+			}
+			body = g.node(g.modes[i], depth, i)
 			for body.K == KName {
 				body = g.node(g.modes[i], 2, i)
 			}
@@ -435,6 +448,25 @@ func EqVariants(r *rand.Rand, defs []SDef) []SDef {
 			out = append(out, copies...)
 		}
 	}
+	// wide choices: 17..40 branches; a permuted copy (equal) and a copy with one label
+	// changed (same number of branches, unequal)
+	if r.Intn(3) == 0 {
+		m := AllModes[r.Intn(4)]
+		k := []Kind{KPlus, KWith}[r.Intn(2)]
+		nb := 17 + r.Intn(24)
+		mk := func() *SNode {
+			x := &SNode{K: k}
+			for i := 0; i < nb; i++ {
+				x.Br = append(x.Br, SBranch{L: fmt.Sprintf("w%d", i), T: &SNode{K: KUnit}})
+			}
+			return x
+		}
+		a, b, c := mk(), mk(), mk()
+		r.Shuffle(len(b.Br), func(i, j int) { b.Br[i], b.Br[j] = b.Br[j], b.Br[i] })
+		c.Br[r.Intn(nb)].L = "wother"
+		ann := spell[m][0]
+		out = append(out, SDef{Name: "WideA", Ann: ann, Body: a}, SDef{Name: "WideB", Ann: ann, Body: b}, SDef{Name: "WideC", Ann: ann, Body: c})
+	}
 	for k := 0; k < 3; k++ {
 		d := defs[r.Intn(n)]
 		switch r.Intn(6) {
@@ -474,6 +506,8 @@ func EqVariants(r *rand.Rand, defs []SDef) []SDef {
 				x.K = KSend
 			case x.K == KPlus:
 				x.K = KWith
+			case (x.K == KWith || x.K == KPlus) && len(x.Br) > 1 && r.Intn(2) == 0:
+				x.Br[r.Intn(len(x.Br))].L = "zz" // same number of branches, one label differs
 			case x.K == KWith && len(x.Br) > 1:
 				x.Br = x.Br[:len(x.Br)-1]
 			case x.K == KWith:
@@ -554,13 +588,17 @@ func (g *g2) nodeDeep(m Mode, d int) *SNode {
 func GenDeepDefs(r *rand.Rand) []SDef {
 	g := &g2{r: r}
 	var defs []SDef
+	long := ""
+	if r.Intn(6) == 0 {
+		long = "_" + strings.Repeat("name", 16+r.Intn(20)) // identifiers of 65..145 characters
+	}
 	for i := 0; i < 2+r.Intn(3); i++ {
 		m := AllModes[r.Intn(4)]
 		body := g.nodeDeep(m, 3+r.Intn(4))
 		for body.K == KUnit {
 			body = g.nodeDeep(m, 4)
 		}
-		d := SDef{Name: fmt.Sprintf("D%d", i), Body: body}
+		d := SDef{Name: fmt.Sprintf("D%d%s", i, long), Body: body}
 		if body.K != KUp && body.K != KDown {
 			d.Ann = g.sp(m)
 		}
@@ -639,5 +677,29 @@ func GenCycleDefs(r *rand.Rand) []SDef {
 		defs = append(defs, SDef{Name: fmt.Sprintf("User%d", u), Body: body})
 	}
 	r.Shuffle(len(defs), func(i, j int) { defs[i], defs[j] = defs[j], defs[i] })
+	return defs
+}
+
+// GenChainDefs: a protocol of 65..150 states, St_i = +{next : St_i+1, stop : 1}, none of them
+// annotated except the last one, which fixes a non-default mode for all of them; declared
+// in order, in reverse order or shuffled.
+func GenChainDefs(r *rand.Rand) []SDef {
+	g := &g2{r: r}
+	m := []Mode{Lin, Aff, Mul}[r.Intn(3)]
+	n := 65 + r.Intn(86)
+	var defs []SDef
+	for i := 0; i < n; i++ {
+		k := []Kind{KPlus, KWith}[r.Intn(2)]
+		defs = append(defs, SDef{Name: fmt.Sprintf("St%d", i), Body: &SNode{K: k, Br: []SBranch{{L: "next", T: &SNode{K: KName, Name: fmt.Sprintf("St%d", i+1)}}, {L: "stop", T: &SNode{K: KUnit}}}}})
+	}
+	defs = append(defs, SDef{Name: fmt.Sprintf("St%d", n), Ann: g.sp(m), Body: &SNode{K: KPlus, Br: []SBranch{{L: "stop", T: &SNode{K: KUnit}}}}})
+	switch r.Intn(3) {
+	case 0:
+		for i, j := 0, len(defs)-1; i < j; i, j = i+1, j-1 {
+			defs[i], defs[j] = defs[j], defs[i]
+		}
+	case 1:
+		r.Shuffle(len(defs), func(i, j int) { defs[i], defs[j] = defs[j], defs[i] })
+	}
 	return defs
 }
